@@ -317,7 +317,8 @@ SPEC = {
     'rule': ('Hypothesis cases over generate_* and add_* forms of subtraction (widths 1-7, unequal), subtract-with-compare '
              '(equal and unequal widths), div-mod (n 1-6/7 incl. b=0, mismatched widths must raise), sqrt (n 1-12), equality '
              'gadget (widths 1-8 x constants 0..2^(w+1)), plus-one (1-8 inputs x 1-10 outputs), if-then-else, pairwise xor / '
-             'if-then-else; both endiannesses; add_* forms on arbitrary (internal, repeated) gates of a generated host with '
+             'if-then-else; both endiannesses; a third of the add_* cases with long numbers (up to 16 bits, div-mod 10, pairwise 12) '
+             'since host operands do not enlarge the table; add_* forms on arbitrary (internal, repeated) gates of a generated host with '
              'add_outputs both ways and result_labels given / None. Oracle: Python integers decoded row by row from the '
              'reference tables on all 2^n rows; output-marking predicate (unchanged without add_outputs, exactly the result '
              'labels added with it), host discipline (old gates structurally / functionally unchanged). Non-trivial: '
